@@ -89,5 +89,33 @@ INFO = {
         'technique': _T,
         'not_decided': ['element-wise tail (iter.for_each) rests on the assumed iterator protocol'],
     },
+    'C02': {
+        'level': 'proof',
+        'level_text': 'Round trip is a theorem over the C01/C03 contracts: per type constructor, Verus proves the laws accepts(dec_bytes(v) ++ s) == Some(|dec_bytes(v)|), prefix closure and Encode/Decode coherence; the generic lemma decode_of_encode then shows that any result allowed by the Decode contract on encode(v) ++ s re-encodes to encode(v) and leaves exactly s. The decoders themselves are proved against that contract (C03).',
+        'level_note': _TB + ' Value identity follows from equal encodings (injectivity of the spec is proved for compact integers/little-endian integers; stated, not separately proved, for composite views). Laws cover ints, bool, Option, Result, OptionBool, unit, tuples, Compact, Vec; inherits the bounded parts of C01/C03.',
+        'technique': _T,
+        'not_decided': ['laws for Box/Rc/Arc, arrays, maps/sets/lists, String, Duration, derived types', 'floats (bit equality): Kani', 'BitVec'],
+    },
+    'C18': {
+        'level': 'proof',
+        'level_text': 'Every DecodeLength impl found in the expansion (impl_len! instances and tuple delegation) is proved to return exactly the canonical Compact<u32> prefix value of the input; with C01 (collections encode compact(len) first) and the compact round-trip lemma this gives len(encode(c)) == c.len(). Decode::skip default is proved to accept/reject and advance exactly like decode.',
+        'level_note': _TB + ' [T;N]::skip override and encoded_fixed_size of arrays are not under contract (array decode is unsafe: bounded Kani).',
+        'technique': _T,
+        'not_decided': ['[T;N]::skip override'],
+    },
+    'C19': {
+        'level': 'proof',
+        'level_text': 'Per-operation contracts of CountedInput are proved (Verus, unbounded, any wrapped Input, any prior counter incl. saturated): read/read_byte add exactly the delivered length on success with saturation and add nothing on failure; all other methods leave the counter unchanged. The fields are private and only these methods write them, so count() equals bytes delivered for every decoder by induction over its calls (meta-argument, stated).',
+        'level_note': _TB + ' R13 inlines Result::inspect (closure capturing &mut self) by its definition; induction over a generic decoder\'s calls is not mechanised.',
+        'technique': _T,
+        'not_decided': ['the induction over arbitrary decoder call sequences is a stated meta-argument'],
+    },
+    'C20': {
+        'level': 'proof',
+        'level_text': 'The extraction is run for std, no_std and no_std+chain-error; every function under contract is shown to have byte-identical extracted text in all configurations (so the same proof applies), and every function whose text differs (Output for Vec<u8>) is verified in each configuration against the same contract. All other obligations treat Error as opaque and therefore hold verbatim in every configuration.',
+        'level_note': _TB + ' Optional integrations (bit-vec, generic-array, serde) are not toggled in the quick tier; the std Output path rests on the assumed write_all contract.',
+        'technique': _T + '; per-configuration extraction + syntactic identity of verified texts',
+        'not_decided': ['optional integrations toggled (bit-vec, generic-array, bytes off)'],
+    },
     'C17': {'not_applicable': 'compile-time accept/reject of programs by rustc + proc-macro: no contract on code reachable by Verus/Kani can express or decide it (DESIGN.md C17)'},
 }
